@@ -558,7 +558,14 @@ func propC13(c *Ctx) {
 		}
 	}
 
-	// ---- eval-inherit --------------------------------------------------------------------
+	ruleEvalInherit(c, rInh, roles)
+}
+
+// ruleEvalInherit (shared by C13 and C01): after the evaluator's table is reset
+// both copy calls follow on every path and every evaluator Compile is
+// dominated by that function.
+func ruleEvalInherit(c *Ctx, rInh string, roles *symtabRoles) {
+	l := c.L
 	for _, ci := range l.StaticCallers(roles.reset) {
 		fn := ci.Parent()
 		key := fmt.Sprintf("%s | SymbolTable.reset()", fnName(fn))
